@@ -779,8 +779,19 @@ Proof.
   - apply ret_flagged; [exact G|]. apply fold_ok_inv; [|exact G]. intros; apply set_add_good; assumption.
   - apply ret_flagged; [exact G|]. apply fold_ok_inv; [|exact G]. intros; apply set_discard_good; assumption.
   - apply ret_flagged; [exact G|]. apply fold_ok_inv; [|exact G]. intros; apply set_discard_good; assumption.
-  - apply ret_flagged; [exact G|]. apply fold_ok_inv; [|exact G]. intros w' v _ G'.
-    destruct (mem v (field w' p fk)); [apply set_discard_good|apply set_add_good]; exact G'.
+  - assert (G1 : Good (fst (fold_ok (fun w c => set_discard w p c)
+                               (filter (fun c => mem c (field w p fk)) (dedup arg1)) w))).
+    { apply fold_ok_inv; [|exact G]. intros; apply set_discard_good; assumption. }
+    destruct (fold_ok (fun w c => set_discard w p c) (filter (fun c => mem c (field w p fk)) (dedup arg1)) w)
+      as [w1 ok1].
+    cbn [fst] in G1.
+    assert (G2 : Good (fst (fold_ok (fun w c => set_add w p c)
+                               (filter (fun c => negb (mem c (field w p fk))) (dedup arg1)) w1))).
+    { apply fold_ok_inv; [|exact G1]. intros; apply set_add_good; assumption. }
+    destruct (fold_ok (fun w c => set_add w p c) (filter (fun c => negb (mem c (field w p fk))) (dedup arg1)) w1)
+      as [w2 ok2].
+    cbn [fst] in G2.
+    apply ret_flagged; [exact G|exact G2].
 Qed.
 
 (* ================================================================== *)
@@ -979,6 +990,43 @@ Qed.
 Lemma forallb_is_k : forall w vs k, forallb (fun v => is_k w v k) vs = true -> forall v, In v vs -> kindof w v = k.
 Proof. intros w vs k H v Hv. rewrite forallb_forall in H. apply is_k_kind. apply H. exact Hv. Qed.
 
+Lemma dedup_incl : forall x l, In x (dedup l) -> In x l.
+Proof.
+  intros x l. induction l as [|a l IH]; intros H; [exact H|].
+  cbn [dedup] in H. destruct (mem a l).
+  - right. apply IH. exact H.
+  - destruct H as [H|H]; [left; exact H|right; apply IH; exact H].
+Qed.
+
+Lemma assign_slice_incl : forall l lo hi vs x, In x (assign_slice l lo hi vs) -> In x l \/ In x vs.
+Proof.
+  intros l lo hi vs x H. unfold assign_slice in H.
+  apply in_app_or in H. destruct H as [H|H].
+  - apply filter_In in H. destruct H as [H _]. left. rewrite <- (firstn_skipn lo l). apply in_or_app. left. exact H.
+  - apply in_app_or in H. destruct H as [H|H].
+    + right. apply dedup_incl. exact H.
+    + apply filter_In in H. destruct H as [H _]. left. rewrite <- (firstn_skipn hi l). apply in_or_app. right. exact H.
+Qed.
+
+(* assignment: hooks for the leavers, hooks for the enterers, then the list is stored *)
+Lemma ml_assign_MI : forall w ir new, ModParOK w -> kindof w ir = KIR ->
+  (forall v, In v new -> ~ In v (kids w ir) -> kindof w v = KMod) ->
+  MI w (fst (ml_assign w ir new)).
+Proof.
+  intros w ir new M Gi Kv. unfold ml_assign. cbv zeta.
+  match goal with |- context [fold_ok ?f ?l w] => pose proof (fold_remove_hook_MI w ir l M) as H1;
+    destruct (fold_ok f l w) as [w1 ok1] end.
+  cbn [fst] in H1.
+  assert (H2 : MI w (fst (fold_ok (fun w v => ml_add_hook w ir v)
+                            (filter (fun x => negb (mem x (kids w ir))) new) w1))).
+  { apply fold_add_hook_MI; [exact H1|rewrite (MI_kind w w1 ir H1); exact Gi|].
+    intros v Hv. rewrite (MI_kind w w1 v H1). apply filter_In in Hv. destruct Hv as [Hv Hm].
+    apply Kv; [exact Hv|]. intros Hin. apply mem_In in Hin. rewrite Hin in Hm. discriminate. }
+  destruct (fold_ok (fun w v => ml_add_hook w ir v) (filter (fun x => negb (mem x (kids w ir))) new) w1) as [w2 ok2].
+  cbn [fst] in *.
+  eapply MI_step; [exact H2|]. apply mq_set_kids. rewrite (MI_kind w w2 ir H2). exact Gi.
+Qed.
+
 (* all module-list operations *)
 Lemma mod_ops_MI : forall w known o, ModParOK w -> op_okb w known o = true ->
   match o with
@@ -1010,30 +1058,14 @@ Proof.
     eapply MI_step; [exact H1|]. apply mq_set_kids. rewrite (MI_kind w w1 ir H1). exact G.
   - (* setitem *) apply andb_true_iff in G. destruct G as [Gi Gv]. apply is_k_kind in Gi. apply is_k_kind in Gv.
     destruct (norm_index i (length (kids w ir))) as [k|]; [|exact R].
-    destruct (nth_error (kids w ir) k) as [old|]; [|exact R].
-    destruct (mem v (kids w ir) && negb (v =? old)); [exact R|].
-    assert (H1 : MI w (fst (ml_remove_hook w ir old))) by (eapply MI_step; [exact R|apply ml_remove_hook_mq]).
-    destruct (ml_remove_hook w ir old) as [w1 ok1]. cbn [fst] in H1.
-    assert (H2 : MI w (fst (ml_add_hook w1 ir v))).
-    { eapply MI_step; [exact H1|]. apply ml_add_hook_mq.
-      - rewrite (MI_kind w w1 v H1). exact Gv.
-      - rewrite (MI_kind w w1 ir H1). exact Gi.
-      - destruct H1 as [_ P]. exact P. }
-    destruct (ml_add_hook w1 ir v) as [w2 ok2]. cbn [fst] in H2.
-    apply ret_flagged; [exact R|]. cbn [fst].
-    eapply MI_step; [exact H2|]. apply mq_set_kids. rewrite (MI_kind w w2 ir H2). exact Gi.
+    apply ret_flagged; [exact R|]. apply ml_assign_MI; [exact M|exact Gi|].
+    intros x Hx Hnx. apply assign_slice_incl in Hx. destruct Hx as [Hx|Hx]; [contradiction|].
+    destruct Hx as [Hx|[]]. subst x. exact Gv.
   - (* setslice *) apply andb_true_iff in G. destruct G as [Gi Gv]. apply is_k_kind in Gi.
     pose proof (forallb_is_k w vs KMod Gv) as Kv. cbv zeta.
-    match goal with |- context [if ?c then Err EImpossible else _] => destruct c end; [exact R|].
-    match goal with |- context [fold_ok ?f ?l w] => pose proof (fold_remove_hook_MI w ir l M) as H1;
-      destruct (fold_ok f l w) as [w1 ok1] end.
-    cbn [fst] in H1.
-    assert (H2 : MI w (fst (fold_ok (fun w v => ml_add_hook w ir v) vs w1))).
-    { apply fold_add_hook_MI; [exact H1|rewrite (MI_kind w w1 ir H1); exact Gi|].
-      intros v Hv. rewrite (MI_kind w w1 v H1). apply Kv. exact Hv. }
-    destruct (fold_ok (fun w v => ml_add_hook w ir v) vs w1) as [w2 ok2]. cbn [fst] in H2.
-    apply ret_flagged; [exact R|]. cbn [fst].
-    eapply MI_step; [exact H2|]. apply mq_set_kids. rewrite (MI_kind w w2 ir H2). exact Gi.
+    apply ret_flagged; [exact R|]. apply ml_assign_MI; [exact M|exact Gi|].
+    intros x Hx Hnx. apply assign_slice_incl in Hx. destruct Hx as [Hx|Hx]; [contradiction|].
+    apply Kv. exact Hx.
   - (* clear *) apply is_k_kind in G.
     pose proof (fold_remove_hook_MI w ir (rev (kids w ir)) M) as H1.
     destruct (fold_ok (fun w v => ml_remove_hook w ir v) (rev (kids w ir)) w) as [w1 ok]. cbn [fst] in H1.
@@ -1672,6 +1704,25 @@ Qed.
 Lemma seqp_ml_append : forall w1 w2 ir v, seq w1 w2 -> seqp (ml_append w1 ir v) (ml_append w2 ir v).
 Proof. intros w1 w2 ir v H. unfold ml_append. rewrite (seq_kids _ _ H). apply seqp_ml_insert. exact H. Qed.
 
+Lemma seqp_ml_assign : forall w1 w2 ir new, seq w1 w2 -> seqp (ml_assign w1 ir new) (ml_assign w2 ir new).
+Proof.
+  intros w1 w2 ir new H. unfold ml_assign. cbv zeta. rewrite (seq_kids _ _ H).
+  match goal with |- context [fold_ok ?f ?l w1] =>
+    assert (HP : seqp (fold_ok f l w1) (fold_ok f l w2))
+      by (apply seqp_fold_ok; [intros; apply seqp_ml_remove_hook; assumption|exact H]);
+    destruct HP as [Hw1 Hs1]; destruct (fold_ok f l w1) as [x1 o1], (fold_ok f l w2) as [x2 o2]
+  end.
+  cbn [fst snd] in *.
+  match goal with |- context [fold_ok ?f ?l x1] =>
+    assert (HP : seqp (fold_ok f l x1) (fold_ok f l x2))
+      by (apply seqp_fold_ok; [intros; apply seqp_ml_add_hook; assumption|exact Hw1]);
+    destruct HP as [Hw2 Hs2]; destruct (fold_ok f l x1) as [y1 q1], (fold_ok f l x2) as [y2 q2]
+  end.
+  cbn [fst snd] in *.
+  apply seqp_mk; [|rewrite Hs1, Hs2; reflexivity].
+  rewrite (seq_kids _ _ Hw2). apply seq_set_kids. exact Hw2.
+Qed.
+
 (* attribute setters *)
 Lemma seq_setn_f : forall a1 a2 b (f : node -> node), seq a1 a2 ->
   seq (setn a1 b (f (getn a1 b))) (setn a2 b (f (getn a2 b))).
@@ -1718,8 +1769,19 @@ Proof.
   - apply seqr_flagged, seqp_fold_ok; [|exact H]. intros; apply seqp_set_add; assumption.
   - apply seqr_flagged, seqp_fold_ok; [|exact H]. intros; apply seqp_set_discard; assumption.
   - apply seqr_flagged, seqp_fold_ok; [|exact H]. intros; apply seqp_set_discard; assumption.
-  - apply seqr_flagged, seqp_fold_ok; [|exact H]. intros a1 a2 v Ha.
-    rewrite (seq_field _ _ p fk Ha). destruct (mem v (field a2 p fk)); [apply seqp_set_discard|apply seqp_set_add]; exact Ha.
+  - match goal with |- context [fold_ok ?f ?l w1] =>
+      assert (HP : seqp (fold_ok f l w1) (fold_ok f l w2))
+        by (apply seqp_fold_ok; [intros; apply seqp_set_discard; assumption|exact H]);
+      destruct HP as [Hw1 Hs1]; destruct (fold_ok f l w1) as [x1 o1], (fold_ok f l w2) as [x2 o2]
+    end.
+    cbn [fst snd] in *.
+    match goal with |- context [fold_ok ?f ?l x1] =>
+      assert (HP : seqp (fold_ok f l x1) (fold_ok f l x2))
+        by (apply seqp_fold_ok; [intros; apply seqp_set_add; assumption|exact Hw1]);
+      destruct HP as [Hw2 Hs2]; destruct (fold_ok f l x1) as [y1 q1], (fold_ok f l x2) as [y2 q2]
+    end.
+    cbn [fst snd] in *.
+    apply seqr_flagged, seqp_mk; [exact Hw2|rewrite Hs1, Hs2; reflexivity].
 Qed.
 
 Lemma seqr_do_setparent : forall w1 w2 c p, seq w1 w2 -> seqr (do_setparent w1 c p) (do_setparent w2 c p).
@@ -1770,29 +1832,9 @@ Proof.
     apply (seq_set_kids_at x1 x2 ir (filter (fun v => negb (mem v victims)))). exact Hw.
   - (* setitem *) rewrite (seq_kids _ _ H).
     destruct (norm_index i (length (kids w2 ir))) as [k|]; [|apply seqr_err].
-    destruct (nth_error (kids w2 ir) k) as [old|]; [|apply seqr_err].
-    destruct (mem v (kids w2 ir) && negb (v =? old)); [apply seqr_err|].
-    destruct (seqp_ml_remove_hook w1 w2 ir old H) as [Hw1 Hs1].
-    destruct (ml_remove_hook w1 ir old) as [x1 o1], (ml_remove_hook w2 ir old) as [x2 o2]. cbn [fst snd] in *.
-    destruct (seqp_ml_add_hook x1 x2 ir v Hw1) as [Hw2 Hs2].
-    destruct (ml_add_hook x1 ir v) as [y1 q1], (ml_add_hook x2 ir v) as [y2 q2]. cbn [fst snd] in *.
-    apply seqr_flagged, seqp_mk; [|rewrite Hs1, Hs2; reflexivity].
-    apply (seq_set_kids_at y1 y2 ir (set_at k v)). exact Hw2.
+    apply seqr_flagged, seqp_ml_assign, H.
   - (* setslice *) rewrite (seq_kids _ _ H). cbv zeta.
-    match goal with |- context [if ?c then Err EImpossible else _] => destruct c end; [apply seqr_err|].
-    match goal with |- context [fold_ok ?f ?l w1] =>
-      assert (HP : seqp (fold_ok f l w1) (fold_ok f l w2))
-        by (apply seqp_fold_ok; [intros; apply seqp_ml_remove_hook; assumption|exact H]);
-      destruct HP as [Hw1 Hs1]; destruct (fold_ok f l w1) as [x1 o1], (fold_ok f l w2) as [x2 o2]
-    end.
-    cbn [fst snd] in *.
-    assert (HP : seqp (fold_ok (fun w v => ml_add_hook w ir v) vs x1) (fold_ok (fun w v => ml_add_hook w ir v) vs x2))
-      by (apply seqp_fold_ok; [intros; apply seqp_ml_add_hook; assumption|exact Hw1]).
-    destruct HP as [Hw2 Hs2].
-    destruct (fold_ok (fun w v => ml_add_hook w ir v) vs x1) as [y1 q1].
-    destruct (fold_ok (fun w v => ml_add_hook w ir v) vs x2) as [y2 q2]. cbn [fst snd] in *.
-    apply seqr_flagged, seqp_mk; [|rewrite Hs1, Hs2; reflexivity].
-    rewrite (seq_kids _ _ Hw2). apply seq_set_kids. exact Hw2.
+    apply seqr_flagged, seqp_ml_assign, H.
   - (* clear *) rewrite (seq_kids _ _ H).
     assert (HP : seqp (fold_ok (fun w v => ml_remove_hook w ir v) (rev (kids w2 ir)) w1)
                       (fold_ok (fun w v => ml_remove_hook w ir v) (rev (kids w2 ir)) w2))
